@@ -349,7 +349,7 @@ class Facts:
                     # closures passed as generic args are reached through aggregates
             for _, _, stt in f.stmts():
                 rv = stt.get('rv')
-                if rv and rv['k'] == 'aggr' and rv.get('akind') == 'closure':
+                if rv and rv['k'] == 'aggr' and rv.get('akind') == 'closure' and rv['closure'] not in getattr(self, 'fully_inlined', ()):
                     st.append(rv['closure'])
         return seen, ext
 
